@@ -385,6 +385,22 @@ class PathA(FormulaSpace):
         if stable.rsplit("::", 1)[-1] in named_in_rules():
             return None
         callee = self.world.fn(stable)
+        if callee is not None and callee.kind == "closure" and len(e[2]) == 2:
+            # a local closure called directly, `pred(x)`: its return formula over the argument, captures substituted
+            cl = e[2][0]
+            while isinstance(cl, tuple) and cl and cl[0] in ("old", "deref"):
+                cl = cl[1]
+            tup = e[2][1]
+            while isinstance(tup, tuple) and tup and tup[0] == "old":
+                tup = tup[1]
+            if cl[0] == "upvar" and self.fa.is_closure:
+                # the called closure is itself captured by this one (`xs.iter().any(|x| pred(x) && ..)`): its captures are
+                # captures of a capture, named ("upcap", k, i) and resolved by whoever imports this closure's formula
+                nup = (max(callee.upvar_names) + 1) if callee.upvar_names else 0
+                cl = ("agg", "closure", callee.id, tuple(("upcap", cl[1], i) for i in range(nup)), ())
+            if cl[0] == "agg" and cl[1] == "closure" and cl[2] == callee.id and tup[0] == "agg" and tup[1] == "tuple" and len(tup[3]) == 1:
+                return self._closure_formula(cl, tup[3][0])
+            return None
         if callee is None or callee.kind not in ("fn", "method") or callee.locals[0]["ty"] != "bool" or len(callee.blocks) > 60:
             return None
         if callee.argc != len(e[2]) or stable == self.fn.stable or stable in _inline_stack or len(_inline_stack) >= 3:
